@@ -73,6 +73,18 @@ def s_two_merge(world):
     return 'queue-merge-two-prs', ('commit', 'tip:' + q[0], {})
 
 
+def s_two_merge_narrow_first(world):
+    """the pull request that entered the queue FIRST has the narrower target
+    set (newest destination only); one queue evaluation merges both"""
+    pr1, src1, _ = to_queued(world, 1, world.layout['chain'][-1])
+    pr2, src2, _ = to_queued(world, 2, first_dest(world))
+    green_queue(world)
+    q = sorted(n for n in world.refs()[0] if n.startswith('q/w/'))
+    if not q:
+        return 'after-direct-merges-noop', ('pr', pr2, {})
+    return 'queue-merge-two-prs-narrow-first', ('commit', 'tip:' + q[0], {})
+
+
 def s_source_moved(world):
     pr, src = open_pr(world, 1, first_dest(world))
     world.run('pr', pr)
@@ -166,6 +178,7 @@ SCENARIOS = {
     'first_eval': s_first_eval, 'queue_entry': s_queue_entry,
     'queue_merge': s_queue_merge, 'second_entry': s_second_entry,
     'two_merge': s_two_merge, 'source_moved': s_source_moved,
+    'two_merge_narrow_first': s_two_merge_narrow_first,
     'decline': s_decline, 'reset': s_reset, 'rebuild': s_rebuild,
     'delete_queues': s_delete_queues, 'force_merge': s_force_merge,
     'create_branch': s_create_branch, 'create_stab': s_create_stab,
